@@ -154,7 +154,13 @@ class RawHeaderPacketReceiver(Elaboratable):
                         self.packet      .eq(packet)
                     ]
 
-                m.next = "WAIT_FOR_HPSTART"
+                # Header packets can arrive back-to-back; in which case this cycle already carries the
+                # HPSTART framing of the next packet. Start over with a fresh CRC, and don't miss it.
+                m.d.comb += crc16.clear.eq(1)
+                with m.If(stream_matches_symbols(sink, SHP, SHP, SHP, EPF)):
+                    m.next = "RECEIVE_DW0"
+                with m.Else():
+                    m.next = "WAIT_FOR_HPSTART"
 
 
         return m
